@@ -100,3 +100,6 @@ META = {
 
 # ROUND-8-APPEND
 PROP['rule'] += " (h) slow consumer (oracle only, child processes overlapping the other cases): NewConnection against the reference server, the server sends 2..5 numbered packets at once (one of 4..34 KB; one Write or back to back), the application takes Responses() once and reads nothing / only the first packet for 11..12 s (> reconnectTimeout; pings answered meanwhile; thorough also 21 s, 10.2 s with two pending, 4..9 s), then must receive every packet in order and intact with exactly 1 handshake, after which a marked packet must be decoded by the server and its answer received; the same on handleIncomingPackets over net.Pipe (1..4 frames, 10.3..11.2 s; thorough 21 s and 31 s): the channel is not closed and a later frame is delivered. (i) source obligation Properties/C11_gen_r8.v over Generated/ConnSends.v (translator genC11r8: every XORKeyStream on the tx cipher, other mention of that field, conn.Write and call of a connection-layer function in package liteclient, with enclosing function, mu-held and go/defer/closure flags): C11_gen_tx_stream_single_writer - tx XOR only in encryptedConn.send, Write only in send/handshake, every call of send made under the receiver's mu (directly or because all callers hold it) or in a session set-up function, set-up functions called only from newEncryptedConnection / setupEncryptedConnection."
+
+# ROUND-8-META
+META['text'] += ' Round 8: a source obligation (C11_gen_tx_stream_single_writer, vm_compute over the call sites the translator extracts from package liteclient on every run) states that the tx cipher stream has a single serialised writer: the XOR only in encryptedConn.send, every call of send under the connection mutex or in session set-up - a syntactic over-approximation of the lock discipline, beside the run-time scenarios (slow consumer, concurrent senders).'
